@@ -175,7 +175,10 @@ def r3_change_capture(run, w):
               flow.same_value(e[2], tup[1], a_val, n.id):
             caps.add(m.id)
             cap_sites.append((m.id, c2.func.value, e[1], tup[1]))
-    ok = bool(caps) and cfg.dominated_by(n.id, caps)
+    if not caps:
+      raise AnalysisError("_recompute_step: no `<changes>.append((row, previous, value))` for the "
+                          "write `%s` recognised (capture moved?)" % short(c))
+    ok = cfg.dominated_by(n.id, caps)
     wit = None if ok else cfg.describe_path(cfg.path(cfg.entry.id, {n.id}, removed=caps))
     run.ob(R3, fn.qualname, short(c), "write dominated by changes.append((row, previous, value))",
            ok, witness=wit, fi=fn.fi, node=c)
@@ -535,15 +538,27 @@ def r8_private_excluded(run, w):
     fn = w.fn(q)
     flow = Flow(fn)
     cfg = fn.cfg
-    heads = [n for n in cfg.nodes if n.kind == "for" and "all_columns" in text(n.stmt.iter)]
+    heads = [n for n in cfg.nodes if n.kind == "for" and
+             "all_columns" in flow.itext(n.stmt.iter, n.id)]
     comps = [(n, x) for n in cfg.nodes for e in n.exprs for x in walk_no_nested(e)
              if isinstance(x, (ast.DictComp, ast.ListComp, ast.SetComp, ast.GeneratorExp)) and
-             any("all_columns" in text(g.iter) for g in x.generators)]
+             any("all_columns" in flow.itext(g.iter, n.id) for g in x.generators)]
+    from ._h_E import callgraph
+    def mentions(t):
+      """Text of a condition, plus the bodies of the repository predicates it calls (a filter
+      moved into a helper predicate still mentions what it tests)."""
+      out = [text(t)]
+      for c_ in ast.walk(t):
+        if isinstance(c_, ast.Call):
+          tg = callgraph(w).resolve(fn, c_)
+          if 0 < len(tg) <= 3:
+            out.extend(text(t_.node) for t_ in tg)
+      return " ".join(out)
     if not heads and not comps:
       raise AnalysisError("%s no longer iterates all_columns" % q)
     def check_guard(site, atoms):
       guard_txt = " ".join(("" if pol else "not ") + text(t) for (t, pol) in atoms)
-      ok = all(any(p + "(" in text(t) for (t, pol) in atoms) for p in need)
+      ok = all(any(p + "(" in mentions(t) for (t, pol) in atoms) for p in need)
       # a decomposed atom that is the predicate call itself must be required false
       for (t, pol) in atoms:
         if isinstance(t, ast.Call) and isinstance(t.func, (ast.Attribute, ast.Name)) and \
@@ -586,6 +601,9 @@ def r9_presence(run, w):
           got_before = v.value
       if endswith(nm, "_rows_present_after.setdefault"):
         got_after = "setdefault"
+    if got_after is None or got_before is None:
+      raise AnalysisError("%s: write of _rows_present_after / default of _rows_present_before "
+                          "not recognised" % fn.qualname)
     run.ob(R9, fn.qualname, "_rows_present_after[r] = %s" % after_val,
            "the last add/remove of a row decides its final presence (plain assignment)",
            got_after is after_val, fi=fn.fi)
